@@ -43,7 +43,7 @@ impl StakeSet {
             .values()
             .filter(|v| v.e_start <= epoch && v.e_post_end > epoch && v.pubkey == key)
             .map(|v| v.syms_staked.0)
-            .sum()
+            .fold(0u128, |total, votes| total.saturating_add(votes))
     }
 
     /// Obtains the number of votes in total for the given epoch.
@@ -52,7 +52,7 @@ impl StakeSet {
             .values()
             .filter(|v| v.e_start <= epoch && v.e_post_end > epoch)
             .map(|v| v.syms_staked.0)
-            .sum()
+            .fold(0u128, |total, votes| total.saturating_add(votes))
     }
 
     /// Removes all the stakes that have expired by this epoch.
